@@ -10,6 +10,7 @@ Oracle: the reader raises an error (non-zero exit, no signal, no sanitizer repor
 emitted by the unit-buffered NDJSON writer)."""
 from __future__ import annotations
 
+import copy
 import json
 import os
 import struct
@@ -247,6 +248,10 @@ def run(ctx):
         new = Pkg("Demo", [Proto("Other", [("x", P("int32"))]), Proto("Frames", [("count", P("uint32")), ("samples", S(P("uint32")))])], [lib], [("v0", old)], "demo")
         m3 = rt.prepare_model(ctx, "importedsamename", new, ["plain"], langs=("cpp",))
         mlib = rt.prepare_model(ctx, "importedsamename_lib", lib, ["plain"], langs=("cpp",))
+        mold = rt.prepare_model(ctx, "importedsamename_old", copy.deepcopy(old), ["plain"], langs=("cpp",))
+        mold_schema = mold.schema("Other") if mold is not None else "{}"
+        if mold is not None:
+            mold.close()
         if m3 is None or mlib is None:
             raise Inconclusive("imported-same-name model did not build")
         cl = mlib.codec
@@ -258,6 +263,24 @@ def run(ctx):
         ctx.count("imported-same-name")
         ctx.case(("imported-same-name",))
         refused(ctx, m3, r, ep.name, "ndjson", "Demo.Frames reader (added since v0) fed a stream of the imported Common.Frames", {"class": "imported-same-name"})
+        # the same reader (its protocol did not exist in v0, which is a listed version) fed its own payload under headers whose schema is empty / blank / "null":
+        # there is no version whose schema is the empty string
+        c3 = m3.codec
+        mine = new.find("Frames")
+        own = c3.encode_stream(mine, m3.schema("Frames"), [3, [1, 2, 5]])
+        body = own[len(c3.encode_stream(mine, m3.schema("Frames"), [3, [1, 2, 5]], upto=0)):]
+        for nm, sch in (("empty", b""), ("blank", b" "), ("null", b"null"), ("empty-object", b"{}"), ("v0-other-protocol", mold_schema.encode())):
+            lv = bytearray()
+            put_uvarint(lv, len(sch))
+            data2 = b"yardl" + struct.pack("<I", 1) + bytes(lv) + sch + body
+            for rd in ("Frames", "Other"):
+                r2 = ep.copy(rd, "bin", "ndjson", data2)
+                ctx.ev()
+                ctx.count("added-protocol-header")
+                ctx.case(("added-protocol-header", nm, rd))
+                if rd == "Other" and nm == "v0-other-protocol":
+                    continue     # Other's v0 schema is a registered schema of Other: accepting it is right
+                refused(ctx, m3, r2, ep.name, "ndjson", "Demo.%s reader fed a stream whose header carries the schema %r" % (rd, sch[:40]), {"class": "added-protocol-header:" + nm, "reader": rd})
         m3.close(); mlib.close()
     imported_same_name()
 
